@@ -28,102 +28,7 @@ func checkC17(c *Ctx) {
 	c.Rule("C17.norm", "NewMap sorts its intervals by begin and its merge loop, walked for every begin-sorted list of up to 3 possibly overlapping or adjacent intervals with endpoints in 0..5, leaves the normal form in the prefix it returns")
 
 	ipkg := ModulePath + "/" + pkgInterval
-	var sets [][]ivl
-	for k := 0; k <= 2; k++ {
-		sets = append(sets, ivlLists(7, k)...)
-	}
-	type binop struct {
-		rule, name, what string
-		want             func(a, b []ivl) []ivl
-	}
-	inSet := func(l []ivl, x int64) bool {
-		for _, i := range l {
-			if i.b <= x && x < i.e {
-				return true
-			}
-		}
-		return false
-	}
-	pointwise := func(f func(a, b bool) bool) func(a, b []ivl) []ivl {
-		return func(a, b []ivl) []ivl {
-			var out []ivl
-			for x := int64(0); x < 8; x++ {
-				if f(inSet(a, x), inSet(b, x)) {
-					out = append(out, ivl{x, x + 1})
-				}
-			}
-			return ivlNormalise(out)
-		}
-	}
-	for _, op := range []binop{
-		{"C17.union", "MapUnion", "union", pointwise(func(a, b bool) bool { return a || b })},
-		{"C17.complement", "MapComplement", "difference", pointwise(func(a, b bool) bool { return a && !b })},
-		{"C17.intersect", "MapIntersect", "intersection", pointwise(func(a, b bool) bool { return a && b })},
-	} {
-		fn := c.Prog.Func(ipkg + "." + op.name)
-		if fn != nil && fn.Blocks == nil {
-			fn = Origin(fn)
-		}
-		if fn == nil || fn.Blocks == nil || len(fn.Params) != 2 {
-			c.Undecide("%s: %s.%s not found", op.rule, ipkg, op.name)
-			continue
-		}
-		// one obligation per shape (number of intervals on each side)
-		type shape struct{ a, b int }
-		bad := map[shape]string{}
-		walked := map[shape]int{}
-		for _, a := range sets {
-			for _, b := range sets {
-				sh := shape{len(a), len(b)}
-				if bad[sh] != "" {
-					continue
-				}
-				if f := os.Getenv("MLTLINT_IVL"); f != "" && f != op.name+ivlString(a)+ivlString(b) {
-					continue
-				}
-				m := newIvlMachine(fn)
-				la, lb := append([]ivl(nil), a...), append([]ivl(nil), b...)
-				m.lists[fn.Params[0]] = &la
-				m.lists[fn.Params[1]] = &lb
-				_, crash, why := m.run()
-				at := fmt.Sprintf("for %s and %s", ivlString(a), ivlString(b))
-				switch {
-				case crash != "":
-					bad[sh] = at + ": " + crash
-				case why != "":
-					bad[sh] = at + ": not computable: " + why
-				default:
-					walked[sh]++
-					if want := op.want(a, b); !ivlEqual(m.acc, want) {
-						bad[sh] = fmt.Sprintf("%s the result is %s, the %s is %s", at, ivlString(m.acc), op.what, ivlString(want))
-					}
-				}
-			}
-		}
-		n := 0
-		for ka := 0; ka <= 2; ka++ {
-			for kb := 0; kb <= 2; kb++ {
-				sh := shape{ka, kb}
-				key := fmt.Sprintf("%s/%d-and-%d-intervals", ShortName(fn), ka, kb)
-				c.Oblige(op.rule, key, c.Prog.FuncPos(fn), bad[sh] == "", bad[sh])
-				n += walked[sh]
-			}
-		}
-		c.Saw("interval_set_pairs", fmt.Sprintf("%s: %d", op.name, n))
-		// the result is the list the walk accumulated: the returned Map's slice is
-		// built by append/helper calls only (not an input list handed back)
-		for _, b := range fn.Blocks {
-			if ret, ok := b.Instrs[len(b.Instrs)-1].(*ssa.Return); ok {
-				aliases := DependsOn(ret.Results[0], func(v ssa.Value) bool {
-					return v == ssa.Value(fn.Params[0]) || v == ssa.Value(fn.Params[1])
-				}) && !DependsOn(ret.Results[0], func(v ssa.Value) bool {
-					call, ok := v.(*ssa.Call)
-					return ok && !isBuiltin(call, "len")
-				})
-				c.Oblige(op.rule, ShortName(fn)+"/returns-the-built-list", c.Prog.Pos(ret.Pos()), !aliases, "the result is an operand's own list, not the list built by the sweep")
-			}
-		}
-	}
+	checkIntervalOperators(c, map[string]string{"MapUnion": "C17.union", "MapComplement": "C17.complement", "MapIntersect": "C17.intersect"})
 	checkIntervalOps(c, "C17.ops")
 
 	// --- NewMap
@@ -138,7 +43,7 @@ func checkC17(c *Ctx) {
 	sorted := false
 	for _, cs := range Calls(nm) {
 		if sortsAscending(cs.Common(), func(v ssa.Value) bool { n, _, ok := FieldNameOfLoad(v); return ok && n == "begin" }) ||
-			sortsAscending(cs.Common(), func(v ssa.Value) bool { return matches(v, Method("Begin", Any())) }) {
+			sortsAscending(cs.Common(), isBeginKey) {
 			if DependsOn(cs.Common().Args[0], func(v ssa.Value) bool { return v == ssa.Value(nm.Params[0]) }) {
 				sorted = true
 			}
@@ -206,3 +111,108 @@ func isBuiltin(call *ssa.Call, name string) bool {
 }
 
 var _ = types.Typ
+
+// checkIntervalOperators walks the set operators as wholes (see checkC17);
+// rules maps an operator's name to the rule its obligations are filed under.
+func checkIntervalOperators(c *Ctx, rules map[string]string) {
+	ipkg := ModulePath + "/" + pkgInterval
+	var sets [][]ivl
+	for k := 0; k <= 2; k++ {
+		sets = append(sets, ivlLists(7, k)...)
+	}
+	type binop struct {
+		rule, name, what string
+		want             func(a, b []ivl) []ivl
+	}
+	inSet := func(l []ivl, x int64) bool {
+		for _, i := range l {
+			if i.b <= x && x < i.e {
+				return true
+			}
+		}
+		return false
+	}
+	pointwise := func(f func(a, b bool) bool) func(a, b []ivl) []ivl {
+		return func(a, b []ivl) []ivl {
+			var out []ivl
+			for x := int64(0); x < 8; x++ {
+				if f(inSet(a, x), inSet(b, x)) {
+					out = append(out, ivl{x, x + 1})
+				}
+			}
+			return ivlNormalise(out)
+		}
+	}
+	for _, op := range []binop{
+		{rules["MapUnion"], "MapUnion", "union", pointwise(func(a, b bool) bool { return a || b })},
+		{rules["MapComplement"], "MapComplement", "difference", pointwise(func(a, b bool) bool { return a && !b })},
+		{rules["MapIntersect"], "MapIntersect", "intersection", pointwise(func(a, b bool) bool { return a && b })},
+	} {
+		if op.rule == "" {
+			continue
+		}
+		fn := c.Prog.Func(ipkg + "." + op.name)
+		if fn != nil && fn.Blocks == nil {
+			fn = Origin(fn)
+		}
+		if fn == nil || fn.Blocks == nil || len(fn.Params) != 2 {
+			c.Undecide("%s: %s.%s not found", op.rule, ipkg, op.name)
+			continue
+		}
+		// one obligation per shape (number of intervals on each side)
+		type shape struct{ a, b int }
+		bad := map[shape]string{}
+		walked := map[shape]int{}
+		for _, a := range sets {
+			for _, b := range sets {
+				sh := shape{len(a), len(b)}
+				if bad[sh] != "" {
+					continue
+				}
+				if f := os.Getenv("MLTLINT_IVL"); f != "" && f != op.name+ivlString(a)+ivlString(b) {
+					continue
+				}
+				m := newIvlMachine(fn)
+				la, lb := append([]ivl(nil), a...), append([]ivl(nil), b...)
+				m.lists[fn.Params[0]] = &la
+				m.lists[fn.Params[1]] = &lb
+				_, crash, why := m.run()
+				at := fmt.Sprintf("for %s and %s", ivlString(a), ivlString(b))
+				switch {
+				case crash != "":
+					bad[sh] = at + ": " + crash
+				case why != "":
+					bad[sh] = at + ": not computable: " + why
+				default:
+					walked[sh]++
+					if want := op.want(a, b); !ivlEqual(m.acc, want) {
+						bad[sh] = fmt.Sprintf("%s the result is %s, the %s is %s", at, ivlString(m.acc), op.what, ivlString(want))
+					}
+				}
+			}
+		}
+		n := 0
+		for ka := 0; ka <= 2; ka++ {
+			for kb := 0; kb <= 2; kb++ {
+				sh := shape{ka, kb}
+				key := fmt.Sprintf("%s/%d-and-%d-intervals", ShortName(fn), ka, kb)
+				c.Oblige(op.rule, key, c.Prog.FuncPos(fn), bad[sh] == "", bad[sh])
+				n += walked[sh]
+			}
+		}
+		c.Saw("interval_set_pairs", fmt.Sprintf("%s: %d", op.name, n))
+		// the result is the list the walk accumulated: the returned Map's slice is
+		// built by append/helper calls only (not an input list handed back)
+		for _, b := range fn.Blocks {
+			if ret, ok := b.Instrs[len(b.Instrs)-1].(*ssa.Return); ok {
+				aliases := DependsOn(ret.Results[0], func(v ssa.Value) bool {
+					return v == ssa.Value(fn.Params[0]) || v == ssa.Value(fn.Params[1])
+				}) && !DependsOn(ret.Results[0], func(v ssa.Value) bool {
+					call, ok := v.(*ssa.Call)
+					return ok && !isBuiltin(call, "len")
+				})
+				c.Oblige(op.rule, ShortName(fn)+"/returns-the-built-list", c.Prog.Pos(ret.Pos()), !aliases, "the result is an operand's own list, not the list built by the sweep")
+			}
+		}
+	}
+}
